@@ -16,12 +16,13 @@ EXTENDS Integers, Sequences, FiniteSets
 
 CONSTANT Cap
 
-VARIABLES accepted, sent, dead, interest, inWrite
-vars == <<accepted, sent, dead, interest, inWrite>>
+VARIABLES accepted, sent, dead, interest, inWrite,
+          blockedInWrite     \* a flush attempt inside the current write made no room (the socket would block)
+vars == <<accepted, sent, dead, interest, inWrite, blockedInWrite>>
 
-Init == accepted = 0 /\ sent = 0 /\ dead = FALSE /\ interest = FALSE /\ inWrite = FALSE
+Init == accepted = 0 /\ sent = 0 /\ dead = FALSE /\ interest = FALSE /\ inWrite = FALSE /\ blockedInWrite = FALSE
 
-WriteBegin == /\ ~inWrite /\ inWrite' = TRUE /\ UNCHANGED <<accepted, sent, dead, interest>>
+WriteBegin == /\ ~inWrite /\ inWrite' = TRUE /\ blockedInWrite' = FALSE /\ UNCHANGED <<accepted, sent, dead, interest>>
 
 \* a message of `len` expanded bytes; `acc` of them were accepted; crsplit = a CR without its LF
 WriteEnd(len, acc, crsplit) ==
@@ -29,8 +30,12 @@ WriteEnd(len, acc, crsplit) ==
   /\ acc >= 0 /\ acc <= len
   /\ ~crsplit
   /\ accepted' = accepted + acc
-  /\ acc < len => (dead \/ accepted' - sent >= Cap - 1)
+  \* the tail is dropped only if the buffer is full, or was full when a flush attempt inside this write was refused
+  \* by the socket (the end of a driver-generated write is not logged: sends of the following flush may already
+  \* have been recorded before its WriteEnd), or the connection is dead
+  /\ acc < len => (dead \/ accepted' - sent >= Cap - 1 \/ blockedInWrite)
   /\ accepted' - sent <= Cap
+  /\ blockedInWrite' = FALSE
   /\ UNCHANGED <<sent, dead, interest>>
 
 \* the socket took n bytes; avail = bytes known to be accepted at that moment (lower bound is
@@ -39,12 +44,13 @@ Send(n, ok) ==
   /\ n > 0 /\ ok /\ ~dead
   /\ sent' = sent + n
   /\ (~inWrite) => sent' <= accepted
-  /\ UNCHANGED <<accepted, dead, interest, inWrite>>
+  /\ UNCHANGED <<accepted, dead, interest, inWrite, blockedInWrite>>
 
-SendBlocked == UNCHANGED vars                      \* EWOULDBLOCK / EINTR: nothing moves
-SendBroken == dead' = TRUE /\ UNCHANGED <<accepted, sent, interest, inWrite>>
-SetInterest(w) == interest' = w /\ UNCHANGED <<accepted, sent, dead, inWrite>>
-Close == dead' = TRUE /\ UNCHANGED <<accepted, sent, interest, inWrite>>
+\* EWOULDBLOCK / EINTR: nothing moves
+SendBlocked == blockedInWrite' = inWrite /\ UNCHANGED <<accepted, sent, dead, interest, inWrite>>
+SendBroken == dead' = TRUE /\ UNCHANGED <<accepted, sent, interest, inWrite, blockedInWrite>>
+SetInterest(w) == interest' = w /\ UNCHANGED <<accepted, sent, dead, inWrite, blockedInWrite>>
+Close == dead' = TRUE /\ UNCHANGED <<accepted, sent, interest, inWrite, blockedInWrite>>
 
 Poll == /\ ~inWrite
         /\ sent <= accepted
